@@ -175,6 +175,7 @@ static void pair_case(int oi, uint64_t N, unsigned sd) {
   char key[160];
   snprintf(key, sizeof key, "%s~%s|%s", acc->name, acc->twin, cl_name[cl]);
   if (!case_begin(key, "N=%" PRIu64 " seed=%u", N, sd)) return;
+  op_exec_no_relate = cl == CL_FLOAT;  // (norm-wise budgets assume independent operands: related ones cancel in sums and transforms)
   env_t* e = env_of(N, 1);
   opres_t ra, rb;
   const uint64_t seed = mix64(G.seed * 8191 + sd * 131 + N);
@@ -236,6 +237,7 @@ static void concurrent_pair_case(int oi, uint64_t N, unsigned rep) {
   const opdef_t* ref = op_lookup(acc->twin);
   const pclass_t cl = classify(acc->name);
   cur_pair_name = acc->name;
+  op_exec_no_relate = cl == CL_FLOAT;
   char key[160];
   snprintf(key, sizeof key, "%s~%s|%s,4 threads", acc->name, acc->twin, cl_name[cl]);
   if (!case_begin(key, "N=%" PRIu64 " rep=%u", N, rep)) return;
@@ -292,6 +294,7 @@ static void dispatch_case(int oi, uint64_t N, unsigned sd, int cfg) {
   cur_pair_name = o->name;
   snprintf(key, sizeof key, "%s@%s~generic|%s", o->name, disp_name[cfg], cl_name[cl]);
   if (!case_begin(key, "N=%" PRIu64 " seed=%u", N, sd)) return;
+  op_exec_no_relate = cl == CL_FLOAT;
   opres_t ra, rb;
   const uint64_t seed = mix64(G.seed * 4099 + sd * 17 + N * 3);
   op_exec(o, env_of(N, 0), seed, (int)(sd & 3), sd, MON_CANARY | MON_CAPTURE, &ra);
@@ -311,9 +314,13 @@ static void dispatch_case(int oi, uint64_t N, unsigned sd, int cfg) {
     const int64_t* y = (const int64_t*)rb.cap_out;
     bad = ra.cap_out_bytes != rb.cap_out_bytes;
     uint64_t off1 = 0;
+    // (the rounding noise of an inverse FFT scales with the largest coefficient of the vector, not with the coefficient it lands on)
+    int64_t maxabs = 0;
+    for (size_t i = 0; !bad && i < ra.cap_out_bytes / 8; i++)
+      if (x[i] != INT64_MIN && llabs(x[i]) > maxabs && llabs(x[i]) < ((int64_t)1 << 62)) maxabs = llabs(x[i]);  // (words beyond res_size hold whatever the buffer held)
     for (size_t i = 0; !bad && i < ra.cap_out_bytes / 8; i++) {
       if (x[i] == y[i]) continue;
-      if (llabs(x[i] - y[i]) <= 1 + llabs(x[i]) / ((int64_t)1 << 44)) off1++;
+      if (llabs(x[i] - y[i]) <= 1 + maxabs / ((int64_t)1 << 44)) off1++;
       else {
         bad = 1;
         snprintf(msg, sizeof msg, "coefficient %zu: generic %" PRId64 " native %" PRId64, i, x[i], y[i]);
@@ -524,4 +531,5 @@ void run_C07(void) {
   for (int k = 0; k < 17; k++)
     for (int n = 0; n < N_DISP; n++)
       if (EN[k][n]) env_destroy(EN[k][n]);
+  op_exec_no_relate = 0;
 }
